@@ -215,6 +215,11 @@ def fam_timeout(seed, i):
         cfg["sscr"] = [[Y, eff("sleep", rng.randint(3, 6))]]
     if rng.random() < 0.35:
         cfg["pscr"] = [eff("sleep", rng.randint(1, 6))]
+    if rng.random() < 0.25:
+        # timers of the actor run alongside: an abandoned invocation must leave them (the actor's state) alone
+        tk = [eff(rng.choice(["interval", "interval", "interval_with", "delayed_send"]), rng.randint(1, 3), f"t{k}") for k in range(rng.choice([1, 2]))]
+        cfg["sscr"] = [cfg.get("sscr", [[]])[0] + tk]
+        sc["horizon"] = 24
     ncl = rng.randint(1, 3)
     names = [f"c{k+1}" for k in range(ncl)]
     kinds = {c: rng.choice(["addr", "addr", "sender", "caller"]) for c in names}
@@ -273,6 +278,13 @@ def fam_timers(seed, i):
     main, handles = setup_main(rng, cfg, kinds, rng.random() < 0.4)
     sc["clients"]["main"] = main
     w = {"send": 4, "call": 4, "yield": 2, "sleep": 4, "drop": 1.5, "stop": 1, "restart": 1 if strat != "none" else 0.3, "upgrade": 1, "join": 0.5, "await": 0.5, "stopped": 0.5}
+    drop_all = rng.random() < 0.3        # every client lets go in the end: timers alone must not keep the actor
+    if drop_all:
+        main = [o for o in main if True]
+        if not any(o["op"] == "drop" and o.get("h") == "h0" for o in main) and not cfg["owning"]:
+            main.append({"op": "drop", "h": "h0"})
+        sc["clients"]["main"] = main
+        w["stop"] = 0.2
     cnt = [0]
     for c in names:
         slp = rng.random() < 0.3
@@ -285,7 +297,7 @@ def fam_timers(seed, i):
                 opts.append([eff("sleep", 2)])
             return rng.choice(opts)
 
-        sc["clients"][c] = Prog(rng, c, handles.get(c, {}), w, scripts, cnt).run(rng.randint(2, 7))
+        sc["clients"][c] = Prog(rng, c, handles.get(c, {}), w, scripts, cnt).run(rng.randint(2, 7), drop_all=drop_all)
     return sc
 
 
@@ -361,7 +373,8 @@ def fam_tree(seed, i):
     handles = {c: {} for c in cl}
     # spawn leaves first is not needed: spawn all, then give child handles to the parents
     for x in nodes:
-        cfg = {"cap": rng.choice([-1, -1, 1, 2]), "pscr": [Y] * rng.choice([0, 1]), "sscr": [[]]}
+        # (a parent may still talk to its children from stopped(): they are held until it has terminated)
+        cfg = {"cap": rng.choice([-1, -1, 1, 2]), "pscr": [Y] * rng.choice([0, 1]) + ([eff(rng.choice(["broadcast_unit", "broadcast_bc", "broadcast_bc2"]))] if rng.random() < 0.25 else []), "sscr": [[]]}
         main.append({"op": "spawn", "a": x, "nh": f"r_{x}", "cfg": cfg, "entry": "builder"})
     late = {}           # children registered by a message instead of in started
     for x in nodes[1:]:
@@ -549,6 +562,14 @@ def fam_stream(seed, i):
            "sscr": [[Y] * rng.choice([0, 1, 1, 2, 3])], "owning": rng.random() < 0.3}
     if rng.random() < 0.08:
         cfg["sscr"] = [[eff("err")]]
+    slow = rng.random() < 0.25
+    if slow:
+        # a handler timeout configured on the builder before the stream is attached: stream-attached actors run
+        # without one (items and messages are never abandoned), however long a handler takes
+        cfg["tmo"] = rng.choice([1, 2])
+        cfg["failto"] = rng.random() < 0.4
+        cfg["iscr"] = rng.choice([[eff("sleep", 3)], [Y, eff("sleep", 2)], [Y]])
+        sc["horizon"] = 30
     ncl = rng.randint(1, 3)
     names = [f"c{k+1}" for k in range(ncl)]
     kinds = {c: rng.choice(["addr", "addr", "sender", "caller", "waddr"]) for c in names}
@@ -562,6 +583,9 @@ def fam_stream(seed, i):
     if shape == "bursts":
         w["end_stream"] = 1
     scripts = [[], [Y], [eff("ctx_stop")], [Y, Y]]
+    if slow:
+        scripts += [[eff("sleep", 3)], [eff("sleep", 4)]]
+        w["sleep"] = 2
     cnt = [0]
     for c in names:
         sc["clients"][c] = Prog(rng, c, handles.get(c, {}), w, scripts, cnt).run(rng.randint(1, 8))
